@@ -439,3 +439,17 @@ pub fn stream_opt(rng: &mut Rng, width: u32, height: u32, transforms: bool) -> (
     w.put(0, 64);
     (w.finish(), f)
 }
+
+/// one serialised prefix code for an alphabet (random used set, simple or normal, with run-length
+/// tokens / `max_symbol` as the generator likes), followed by random bits: (bytes, lengths)
+pub fn serialised_code(rng: &mut Rng, alphabet: usize) -> (Vec<u8>, Vec<u8>) {
+    let mut f = Feat::default();
+    let nused = match rng.below(4) { 0 => 1, 1 => 2, 2 => 1 + rng.below(alphabet.min(40) as u64) as usize, _ => 1 + rng.below(alphabet as u64) as usize };
+    let mut used = vec![false; alphabet];
+    for _ in 0..nused { let s = rng.below(alphabet as u64) as usize; used[s] = true; }
+    let c = choose_code(rng, &used, alphabet, &mut f);
+    let mut w = BitW::new();
+    write_code(rng, &mut w, &c, &mut f);
+    for _ in 0..rng.below(40) { w.put(rng.below(2), 1); }
+    (w.finish(), c.lengths.clone())
+}
